@@ -29,7 +29,7 @@ func main() {
 	tier := flag.String("tier", "quick", "quick|thorough")
 	evdir := flag.String("evidence", "/verif/evidence", "evidence directory")
 	knownFile := flag.String("known", "/verif/known_findings.json", "known findings")
-	solver := flag.String("solver", "z3", "z3|z3-new|cvc5")
+	solver := flag.String("solver", "z3-new", "z3|z3-new|cvc5")
 	workers := flag.Int("j", 16, "parallel harnesses")
 	noReplay := flag.Bool("noreplay", false, "do not replay counterexamples natively")
 	replayDir := flag.String("replays", "/verif/replays", "replay output directory")
